@@ -565,7 +565,12 @@ def run_unit(unit):
             if -2 ** 63 <= x < 2 ** 64:
                 run_value(acc, x, 'quick', rng, True)
                 run_value(acc, [x, x], 'quick', rng, False, nalt=1)
-        acc.samples.append({'kind': 'ints', 'values': unit['ints'][:4]})
+        x0 = next((int(x) for x in unit['ints'] if -2 ** 63 <= int(x) < 2 ** 64), None)
+        if x0 is not None:
+            acc.samples.append({'kind': 'ints', 'value': str(x0), 'real_encoding_hex': U.dumps(x0).hex(),
+                                'reference_encodings_decoded': {o: e.hex() for o, e in all_choices(x0)},
+                                'stream_cut_after_bytes': list(range(len(U.dumps(x0)))),
+                                'expected_at_every_cut': 'InsufficientDataException'})
     elif kind == 'len':
         rng = prng.rng('c14-len', unit['seed'], unit['family'], unit['n'])
         full = unit['tier'] == 'thorough' and unit['family'] in ('str', 'str-mb', 'bin', 'ext')
